@@ -125,6 +125,9 @@ def run(ctx):
     # (documents with everything the reader and the converter warn about: the RESULT is the value and the messages)
     for j in range(40 if ctx.thorough else 12):
         pkg = gen_xml.XGen(rng, anomalies=0.5, dangling=0.4, hostile=0.2, linked_rate=0.0).package()
+        if j % 2 == 0:
+            # (whatever else the package carries - an embedded style map that restyles what the document uses - goes through a transform untouched)
+            pkg.embedded_style_map = "p.Normal => p.n:fresh\nr.Emph => code\np.Quote => blockquote > p:fresh\nr.Strong => b.s\np.Heading1 => h1.t:fresh"
         data, _ = B.build(pkg)
         ident = [("paragraph", transforms.paragraph(lambda p: p)), ("run", transforms.run(lambda r_: r_)),
                  ("element_of_type(Text)", transforms.element_of_type(D.Text, lambda t_: t_)), ("plain function", lambda d_: d_)][j % 4]
